@@ -38,7 +38,7 @@ Theorem C09_dip_position_partial : forall n g a t0 gs,
   square_sym n g -> (forall k, (k < n * n)%nat -> gs k = transpose_arr n (separable_phase g a t0) k) ->
   (forall tau, hom_rate g (separable_phase g a t0) gs tau None = dip_rate g a (tau - t0)) /\
   (rsum n (fun s => cnorm2 ROps (a s)) <> 0 -> hom_rate g (separable_phase g a t0) gs t0 None = 0).
-Proof. exact (fun n g a t0 gs Hg Hgs => conj (hom_rate_dip n g a t0 Hg gs Hgs) (hom_rate_dip_zero n g a t0 Hg gs Hgs)). Qed.
+Proof. exact hom_rate_dip_both. Qed.
 
 (* a delay series is the list of the individually computed rates *)
 Theorem C09_series : forall g f gs taus,
@@ -77,11 +77,11 @@ Proof. exact hom_rate_Q0_normed_correct. Qed.
    default norm, argument order of the series) are the model the theorems above are about *)
 Theorem C09_source_is_model : forall g f gs tau norm taus,
   src_hom_rate g f gs tau norm = hom_rate g f gs tau norm /\ src_hom_rate_series g f gs taus = hom_rate_series g f gs taus.
-Proof. exact (fun g f gs tau norm taus => conj (src_hom_rate_eq g f gs tau norm) (src_hom_rate_series_eq g f gs taus)). Qed.
+Proof. exact src_is_model. Qed.
 
 Theorem C09_source_wrappers : forall J g taus delta_t,
   src_setup_hom_rate_series J g taus = setup_hom_rate_series J g taus /\ src_hom_visibility J g delta_t = setup_hom_visibility J g delta_t.
-Proof. exact (fun J g taus dt => conj (src_setup_hom_rate_series_eq J g taus) (src_hom_visibility_eq J g dt)). Qed.
+Proof. exact src_wrappers. Qed.
 
 Theorem C09_source_range : forall n g f gs tau,
   square_sym n g -> (forall k, (k < n * n)%nat -> gs k = transpose_arr n f k) -> 0 < jsi_norm ROps (n * n) f ->
